@@ -18,11 +18,12 @@ def main():
     ap.add_argument('funcs', nargs='*')
     ap.add_argument('--pkg', default=None)
     ap.add_argument('-v', action='store_true')
+    ap.add_argument('--race', action='store_true', help='second stage on undischarged obligations (solver race), SMT-LIB text kept in /tmp')
     a = ap.parse_args()
     cs = P.load_contracts()
     funcs = a.funcs
     if a.pkg:
-        funcs = [k for k, c in cs.funcs.items() if k.startswith(a.pkg + '::') and not c.assumed and not c.is_iface and not getattr(c, 'has_cases', False)]
+        funcs = [k for k, c in cs.funcs.items() if k.startswith(a.pkg + '::') and not c.assumed and not c.is_iface and not c.inline and not getattr(c, 'has_cases', False)]
     t0 = time.time()
     inl = [k for k, c in cs.funcs.items() if c.inline]
     prog, missing = load_program(list(funcs) + inl)
@@ -42,7 +43,24 @@ def main():
             print('   %-70s %s x%d %.2fs' % (n, st, len(rs), sum(r.seconds for r in rs)))
             for r in rs:
                 if r.status != 'discharged':
-                    print('       ', r.status, r.note, r.text, getattr(r, 'inputs', None), getattr(r, 'trace', None))
+                    print('       ', r.status, r.note, r.text, getattr(r, 'inputs', None), str(getattr(r, 'trace', None))[:200])
+                    if a.race and r.query is not None:
+                        from . import solve
+                        import re
+                        smt2 = solve.to_smt2(r.query[0], r.query[1])
+                        fn = '/tmp/vc_%s.smt2' % re.sub(r'[^A-Za-z0-9]+', '_', n)[-80:]
+                        open(fn, 'w').write(smt2)
+                        verdict, who, secs, outs = solve.race(smt2, 20, need_agree=False)
+                        print('        stage2: %s by %s in %.1fs (%d bytes, %s)' % (verdict, who, secs, len(smt2), fn))
+                        import z3
+                        g = r.query[1]
+                        parts = list(g.children()) if (z3.is_app(g) and g.decl().kind() == z3.Z3_OP_AND) else [g]
+                        for pi, pg in enumerate(parts):
+                            sv = z3.Solver(); sv.set('timeout', 5000)
+                            for x in r.query[0]:
+                                sv.add(x)
+                            sv.add(z3.Not(pg))
+                            print('          conjunct %d: %s   %s' % (pi, sv.check(), str(pg).replace('\n', ' ')[:160]))
                     break
         unc = cx.uncovered_blocks()
         if unc: print('   UNCOVERED:', unc)
